@@ -611,6 +611,19 @@ func (fc *fnCtx) mergeInto(b *ssa.BasicBlock) *State {
 		fc.sc.Def(sym, fc.heapSort[k], t)
 		st.heap[k] = sym
 	}
+	// source-level locals: kept where every predecessor agrees (named phis are added when they are defined)
+	for k, v := range fc.exits[preds[0]].locals {
+		agree := true
+		for _, p := range preds[1:] {
+			if w, ok := fc.exits[p].locals[k]; !ok || w.T != v.T || fc.exits[p].localAddr[k] != fc.exits[preds[0]].localAddr[k] {
+				agree = false
+				break
+			}
+		}
+		if agree {
+			st.setLocal(k, v, fc.exits[preds[0]].localAddr[k])
+		}
+	}
 	// alloc
 	at := fc.exits[preds[len(preds)-1]].alloc
 	for i := len(preds) - 2; i >= 0; i-- {
@@ -664,6 +677,9 @@ func (fc *fnCtx) phis(b *ssa.BasicBlock, st *State) {
 		if maybeElt {
 			d.MaybeElt = true
 			fc.vals[phi] = d
+		}
+		if phi.Comment != "" && d.Addr == nil && len(d.Tup) == 0 {
+			st.setLocal(phi.Comment, fc.vals[phi], false)
 		}
 	}
 }
